@@ -1,10 +1,63 @@
 /-
   Driver ops for C10.
+  `c10-raw`: the harness sends the `nodeJSON` tree of a policy-JSON condition body (as `encoding/json`
+  populates it: `nil` for a `null` record entry, `zero` for `null`/`{}` in a by-value position); the
+  model answers what the Go code must do with it at each stage:
+    dec   = `ast.Policy.UnmarshalJSON`            ok | reject | panic
+    eval  = `cedar.NewPolicyFromAST` + evaluation  ok | panic      (ToEval)
+    cedar = `MarshalCedar`                         ok | panic
+    json  = `MarshalJSON`                          ok | panic
+    wf    = the decoded tree satisfies `RawExpr.WF`
 -/
 import CedarGo.Driver.Ops.Core
+import CedarGo.Model.RawAst
 namespace CedarGo.Driver
 open Lean CedarGo
 
-def c10Ops : List (String × Handler) := []
+partial def decNodeJSONC10 (j : Json) : D NodeJSON := do
+  let a ← jArr j
+  match a with
+  | [.str "nil"] => .ok .nil
+  | [.str "zero"] => .ok .zero
+  | [.str "lit"] => .ok (.lit (.bool true))
+  | [.str "var", v] => .ok (.var (← jHex v))
+  | [.str "ite", c, t, e] => .ok (.ite (← decNodeJSONC10 c) (← decNodeJSONC10 t) (← decNodeJSONC10 e))
+  | [.str "access", e, atr] => .ok (.access (← decNodeJSONC10 e) (← jHex atr))
+  | [.str "has", e, atr] => .ok (.has (← decNodeJSONC10 e) (← jHex atr))
+  | [.str "like", e] => .ok (.like (← decNodeJSONC10 e) [])
+  | [.str "is", e, ty] => .ok (.is (← decNodeJSONC10 e) (← jHex ty))
+  | [.str "isIn", e, ty, r] => .ok (.isIn (← decNodeJSONC10 e) (← jHex ty) (← decNodeJSONC10 r))
+  | [.str "set", es] => .ok (.set (← (← jArr es).mapM decNodeJSONC10))
+  | [.str "rec", kes] => do
+      let ps ← (← jArr kes).mapM fun kv => do
+        match ← jArr kv with
+        | [k, v] => .ok ((← jHex k), (← decNodeJSONC10 v))
+        | _ => .error "bad rec entry"
+      .ok (.record ps)
+  | [.str "call", fn, args] => .ok (.call (← jHex fn) (← (← jArr args).mapM decNodeJSONC10))
+  | [.str op, x] =>
+      match unOps.lookup op with
+      | some o => .ok (.unop o (← decNodeJSONC10 x))
+      | none => .error s!"bad unop {op}"
+  | [.str op, l, r] =>
+      match binOps.lookup op with
+      | some o => .ok (.binop o (← decNodeJSONC10 l) (← decNodeJSONC10 r))
+      | none => .error s!"bad binop {op}"
+  | _ => .error s!"bad raw node {j.compress}"
+
+def showStageC10 {α : Type} : Except Err α → String
+  | .ok _ => "ok"
+  | .error .panic => "panic"
+  | .error _ => "error"
+
+def opC10Raw : Handler := fun _ j => do
+  let n ← decNodeJSONC10 (← field j "raw")
+  match n.toNode with
+  | .error .reject => .ok "dec=reject eval=- cedar=- json=- wf=-"
+  | .error .panic => .ok "dec=panic eval=- cedar=- json=- wf=-"
+  | .ok r =>
+    .ok s!"dec=ok eval={showStageC10 r.toExpr?} cedar={showStageC10 r.marshalSkel} json={showStageC10 r.jsonSkel} wf={r.wfb}"
+
+def c10Ops : List (String × Handler) := [("c10-raw", opC10Raw)]
 
 end CedarGo.Driver
